@@ -40,6 +40,17 @@ pub struct Case {
     pub limiter: bool,
     pub stallers: Vec<Stall>,
     pub good_v2: bool,
+    /// instead of one well-behaved client: this many arrive in the same instant, at the moment the limiter's
+    /// periodic clean-up of (prefill x 1000) idle addresses is due
+    #[serde(default)]
+    pub crowd: Option<Crowd>,
+}
+
+#[derive(Clone, Debug, Serialize, Deserialize, PartialEq)]
+pub struct Crowd {
+    pub n: u8,
+    pub prefill_k: u16,
+    pub window_ms: u16,
 }
 
 pub struct C16;
@@ -145,7 +156,65 @@ fn one_run(case: &Case, with_stallers: bool) -> Option<Duration> {
     took
 }
 
+/// the crowd run: returns the clients that were not answered within the bound
+fn crowd_run(case: &Case, crowd: &Crowd, n: usize) -> Result<Vec<String>, String> {
+    let window = Duration::from_millis(u64::from(crowd.window_ms));
+    let cfg = ListenerCfg { proxy: case.proxy.then_some((true, true)), limiter: Some((window, 100_000)), timeout: Duration::from_secs(30), limiter_prefill: usize::from(crowd.prefill_k) * 1000, ..Default::default() };
+    let run = net::start_listener(&cfg, NetScript { discovery_ms: None, ..Default::default() }, 4);
+    let held = open_stallers(case, run.port);
+    // the clean-up is due two windows after the limiter was created
+    std::thread::sleep(window * 2 + Duration::from_millis(30));
+    let barrier = std::sync::Barrier::new(n);
+    let port = run.port;
+    let missed: Vec<String> = std::thread::scope(|s| {
+        let hs: Vec<_> = (0..n)
+            .map(|i| {
+                let barrier = &barrier;
+                s.spawn(move || {
+                    barrier.wait();
+                    let r = (|| {
+                        let mut good = NetClient::connect(port).map_err(|e| e.to_string())?;
+                        if case.proxy {
+                            good.write_raw(&header(i % 2 == 0, port, 1000 + i as u16)).map_err(|e| e.to_string())?;
+                        }
+                        good.status_exchange("crowd.example.org", BOUND).map_err(|e| format!("{e:?} after {} bytes", good.received))
+                    })();
+                    r.err().map(|e| format!("client #{i}: {e}"))
+                })
+            })
+            .collect();
+        hs.into_iter().filter_map(|h| h.join().expect("crowd thread")).collect()
+    });
+    drop(held);
+    run.stop.cancel();
+    std::mem::forget(run);
+    Ok(missed)
+}
+
 fn decide(case: &Case, info: &mut CaseInfo) -> Verdict {
+    if let Some(crowd) = &case.crowd {
+        info.nontrivial = true;
+        info.class("crowd_arrives_while_limiter_cleanup_is_due");
+        info.class(if case.proxy { "proxy:on" } else { "proxy:off" });
+        let n = usize::from(crowd.n.max(2));
+        return match crowd_run(case, crowd, n) {
+            Ok(m) if m.is_empty() => Verdict::Pass,
+            Ok(first) => {
+                // control: one client alone under the same conditions; then the crowd again
+                let alone = crowd_run(case, crowd, 1);
+                let again = crowd_run(case, crowd, n);
+                match (alone, again) {
+                    (Ok(a), Ok(b)) if a.is_empty() && !b.is_empty() => Verdict::Fail {
+                        sig: "well-behaved-client-not-served-while-others-connect".into(),
+                        msg: format!("{n} well-behaved clients connecting in the same instant (limiter tracking {} idle addresses, clean-up due, proxy {}): not served within {BOUND:?}: {:?}; second run: {:?}; a single client alone is served", u32::from(crowd.prefill_k) * 1000, case.proxy, first, b),
+                    },
+                    (Ok(a), _) if !a.is_empty() => Verdict::Inconclusive("a single client alone was not served either".into()),
+                    _ => Verdict::Inconclusive("the miss did not reproduce".into()),
+                }
+            }
+            Err(e) => Verdict::Inconclusive(e),
+        };
+    }
     let pre_header = case.proxy && case.stallers.iter().any(|s| matches!(s, Stall::Silent | Stall::InsideFirstMessage(_)));
     info.nontrivial = pre_header || case.stallers.len() >= 5;
     info.class(if case.proxy { "proxy:on" } else { "proxy:off" });
@@ -192,13 +261,21 @@ impl Check for C16 {
             1 => Just(Stall::LoggedInSilent),
             1 => Just(Stall::NotReading),
         ];
-        (any::<bool>(), any::<bool>(), proptest::collection::vec(stall, 1..20), any::<bool>()).prop_map(|(proxy, limiter, stallers, good_v2)| Case { proxy, limiter, stallers, good_v2 }).boxed()
+        let crowd = (16u8..64, 100u16..400, 100u16..250).prop_map(|(n, prefill_k, window_ms)| Crowd { n, prefill_k, window_ms });
+        (any::<bool>(), any::<bool>(), proptest::collection::vec(stall, 1..20), any::<bool>(), proptest::option::weighted(0.05, crowd))
+            .prop_map(|(proxy, limiter, mut stallers, good_v2, crowd)| {
+                if crowd.is_some() {
+                    stallers.truncate(3);
+                }
+                Case { proxy, limiter, stallers, good_v2, crowd }
+            })
+            .boxed()
     }
     fn max_shrink_iters(&self) -> u32 {
         12
     }
     fn cases(&self, tier: Tier) -> u64 {
-        tier.pick(160, 5_000)
+        tier.pick(800, 5_000)
     }
     fn run(&self, case: &Case) -> (Verdict, CaseInfo) {
         let mut info = CaseInfo::default();
